@@ -644,6 +644,7 @@ func startupRun(ctx *Ctx, in startupIn) startupObs {
 			obs.Steps = append(obs.Steps, startupStepObs{Acts: []string{}})
 			continue
 		}
+		tStep := time.Now()
 		stop(c.Id) // a second process for the same fan is never started while one runs
 		env.mu.Lock()
 		from := len(env.events)
@@ -691,8 +692,12 @@ func startupRun(ctx *Ctx, in startupIn) startupObs {
 				step.Acts = append(step.Acts, "Err")
 			}
 		}
+		tCmd := time.Since(tStep)
 		step.HasData, step.HasMap = env.dbFlags(d)
 		obs.Steps = append(obs.Steps, step)
+		if os.Getenv("STARTUP_TIMING") != "" {
+			fmt.Fprintf(os.Stderr, "case %d %s %s fan%d: cmd %v flags %v acts %v\n", startupCaseNo, c.Op, d.spec.Kind, c.Id, tCmd, time.Since(tStep)-tCmd, step.Acts)
+		}
 	}
 	for id := range running {
 		stop(id)
